@@ -413,10 +413,6 @@ func registerIntrinsics(e *Engine) {
 		return nil, false // run the real acceptance code; value half is stubbed below
 	}
 	// value half of ParseFloat: any non-NaN double (exactness not claimed)
-	in["strconv.atof64exact"] = func(p *Path, _ *frame, _ *ssa.Function, a []value) (value, bool) {
-		p.stub("strconv.atof64exact")
-		return tuple{ConstF64(0), tFalse}, true
-	}
 	in["strconv.eiselLemire64"] = func(p *Path, _ *frame, _ *ssa.Function, a []value) (value, bool) {
 		p.stub("strconv.eiselLemire64(value half of ParseFloat)")
 		f := p.havocF64("ParseFloat.value")
